@@ -733,6 +733,7 @@ def py_len(x):
 def py_min(*args, **kw):
     if len(args) == 1:
         args = tuple(args[0])
+    args = tuple(a.v if isinstance(a, SeqLen) else a for a in args)
     if not any(isinstance(a, V) for a in args):
         return min(*args, **kw)
     r = args[0]
@@ -744,6 +745,7 @@ def py_min(*args, **kw):
 def py_max(*args, **kw):
     if len(args) == 1:
         args = tuple(args[0])
+    args = tuple(a.v if isinstance(a, SeqLen) else a for a in args)
     if not any(isinstance(a, V) for a in args):
         return max(*args, **kw)
     r = args[0]
@@ -885,7 +887,7 @@ def builtins_table():
         "isinstance": py_isinstance,
         "set": py_set,
         "list": py_list,
-        "tuple": lambda x=(): tuple(py_list(x)),
+        "tuple": tuple,
         "dict": dict,
         "bool": bool,
         "enumerate": py_enumerate,
